@@ -67,6 +67,16 @@ func (s *SortedRegions) ReplaceOrInsert(cachedRegion *Region) *Region {
 
 // SearchByKey returns the region which contains the key. Note that the region might be expired and it's caller's duty to check the region TTL.
 func (s *SortedRegions) SearchByKey(key []byte, isEndKey bool) (r *Region) {
+	if isEndKey && len(key) == 0 {
+		// The end of the key space: only the region with the greatest start key can contain it.
+		s.b.Descend(func(item *btreeItem) bool {
+			if item.cachedRegion.ContainsByEnd(key) {
+				r = item.cachedRegion
+			}
+			return false
+		})
+		return
+	}
 	s.b.DescendLessOrEqual(newBtreeSearchItem(key), func(item *btreeItem) bool {
 		region := item.cachedRegion
 		if isEndKey && bytes.Equal(region.StartKey(), key) {
